@@ -25,6 +25,20 @@ CHECKS["C13"] = (True, MC, "symbolic execution of the real front-end passes (sym
     "index-type / literal-spelling table are concrete gates, labelled as such in the evidence.",
     "Trusts z3, CrossHair's str model, the proxy model of ints. Non-square matrices (not spellable) are outside the claim.", "DESIGN.md 5 (C13)")
 
+CHECKS["C11"] = (True, MC, "one-step structural induction: symbolic execution of the real flow-statement visitor per node kind with symbolic loop depth (symx + z3)",
+    "One inductive step per statement node kind: the real ValidateFlowStatementVisitor method runs with a symbolic incoming loop depth d >= 0 (unbounded) on stub "
+    "children that record the depth they receive; z3 decides: loop bodies get d+1, all other children d, each child once, break/continue rejected iff d = 0. The "
+    "composition over tree depth is a three-line paper induction (named in the evidence). An exhaustive concrete enumeration of statement trees (<= 4 / 6 nodes) through "
+    "Compiler().Compile is the replay channel and a gate, labelled non-symbolic.",
+    "Trusts z3 and the proxy model; stub children stand for arbitrary sub-trees because dispatch is by class name; the induction itself is not mechanised.", "DESIGN.md 5 (C11)")
+CHECKS["C12"] = (True, MC, "one-step structural induction: symbolic execution of the real name-validation visitor per scope-forming node kind over symbolic names (symx + z3)",
+    "One inductive step per scope-forming node kind (declaration, block, for, while, do, if, function, struct): the real ValidateVariableNamesVisitor runs on an "
+    "arbitrary incoming chain of 1-3 name tables whose names are symbolic elements of an unbounded domain, with stub children that declare and probe names; z3 decides "
+    "that a declaration is rejected iff its name is visible, children see exactly chain + names declared so far, sibling branches are independent and the incoming "
+    "chain is unchanged. A template family through Compiler().Compile (declaration and use at 13 points x 7 names, expected verdict from a reference scope walker) is "
+    "the replay channel and covers ComputeTypes' scopes; labelled non-symbolic.",
+    "Trusts z3 and the SymName model (names compared only by ==/hash); the induction over tree depth is a paper argument.", "DESIGN.md 5 (C12)")
+
 NOT_YET = "check not built yet in this round (see DESIGN.md status); nothing is claimed"
 NA = {
     "C18": "quantifies over hash seeds, processes and compilation histories: none of these is a value flowing through the code, so there is no assertion over symbolic variables for a solver to decide (DESIGN.md section 6)",
